@@ -35,7 +35,9 @@ def signature_of(log):
         return "%s:%s@%s" % (m.group(1), m.group(2), m.group(5).strip()[:80])
     m = re.search(r"runtime error: (.*)", log)
     if m:
-        return "ubsan:" + m.group(1).strip()[:100]
+        what = re.sub(r"0x[0-9a-f]+", "<addr>", m.group(1).strip())[:100]
+        fr = re.search(r"#0 0x[0-9a-f]+ in (.+?) /", log[m.end():])
+        return "ubsan:" + what + ("@" + fr.group(1).strip()[:120] if fr else "")
     if "deadly signal" in log:
         return "deadly-signal"
     return "crash"
